@@ -4,9 +4,9 @@
 
   Mirrors (line numbers of /repo at the time of writing):
     include/nano/function/constraint.h:12-134   the 11 alternatives of `constraint_t`           -> `C`
-    src/function/constraint.cpp:58-123          `::vgrad(<kind>, x, gx)` (value and gradient)    -> `C.vgrad`
-    src/function/constraint.cpp:145-198         `::valid(<kind>, x)` (how much `x` violates)     -> `C.valid`
-    src/function/constraint.cpp:200-223         `::compatible(function, <kind>)`                 -> `C.compatible`
+    src/function/constraint.cpp:66-125, 268-281 `::vgrad(<kind>, x, gx)` (value and gradient) and its `std::visit` -> `C.vgrad`
+    src/function/constraint.cpp:152-205, 283-301 `::valid(<kind>, x)` (how much `x` violates)    -> `C.valid`
+    src/function/constraint.cpp:207-231, 328-336 `::compatible(function, <kind>)`                -> `C.compatible`
     src/function/constraint.cpp:338-345         `nano::is_equality`                              -> `C.isEq`
     src/function/constraint.cpp:347-367         `count_equalities`, `count_inequalities`         -> `countEq`, `countIneq`
     src/function.cpp:58-66                      `function_t::constrain(constraint_t&&)`          -> `constrain`
@@ -90,21 +90,21 @@ def unitVec (n d : Nat) (s : α) : List α := (List.range n).map (fun i => if i 
 /-- `0.5` -/
 def half : α := 1 / 2
 
-/-- `::vgrad(const euclidean_ball_t&, x, gx)` (constraint.cpp:58-65) -/
+/-- `::vgrad(const euclidean_ball_t&, x, gx)` (constraint.cpp:66-73) -/
 def ballVgrad (origin : List α) (radius : α) (x : List α) : α × List α :=
   let d := vsub x origin
   (dot d d - radius * radius, d.map (fun v => 2 * v))
 
-/-- `::vgrad(const linear_t&, x, gx)` (constraint.cpp:67-74) -/
+/-- `::vgrad(const linear_t&, x, gx)` (constraint.cpp:75-82) -/
 def linVgrad (q : List α) (r : α) (x : List α) : α × List α := (dot q x + r, q)
 
-/-- `::vgrad(const quadratic_t&, x, gx)` (constraint.cpp:76-85) -/
+/-- `::vgrad(const quadratic_t&, x, gx)` (constraint.cpp:84-93) -/
 def quadVgrad (P : List (List α)) (q : List α) (r : α) (x : List α) : α × List α :=
   let Px := matVec P x
   (half * dot x Px + dot q x + r, vadd Px q)
 
 /-- `nano::vgrad(const constraint_t&, x, gx)`: value and gradient of the constraint function at `x`
-    (constraint.cpp:58-123 dispatched by the `std::visit` of lines 268-282) -/
+    (constraint.cpp:66-125 dispatched by the `std::visit` of lines 268-281; the box kinds at 95-120) -/
 def C.vgrad (c : C α) (x : List α) : α × List α :=
   match c with
   | .constant v d => (x.getD d 0 - v, unitVec x.length d 1)
@@ -119,7 +119,7 @@ def C.vgrad (c : C α) (x : List α) : α × List α :=
   | .funEq _ f => f x
   | .funIneq _ f => f x
 
-/-- `nano::valid(const constraint_t&, x)` (constraint.cpp:145-198): the three box kinds are coded directly,
+/-- `nano::valid(const constraint_t&, x)` (constraint.cpp:152-205): the three box kinds are coded directly,
     the others through `::vgrad` -/
 def C.valid (c : C α) (x : List α) : α :=
   match c with
@@ -135,7 +135,7 @@ def C.valid (c : C α) (x : List α) : α :=
   | .funEq _ f => absv (f x).1
   | .funIneq _ f => cmax (f x).1 0
 
-/-- `nano::compatible(constraint, function)` with `n = function.size()` (constraint.cpp:200-223) -/
+/-- `nano::compatible(constraint, function)` with `n = function.size()` (constraint.cpp:207-231) -/
 def C.compatible (n : Nat) : C α → Bool
   | .constant _ d => decide (d < n)
   | .minimum _ d => decide (d < n)
